@@ -78,3 +78,112 @@ package flate
 //@   loop 1 invariant f.err == nil || f.err == old(f.err) || (errClass(f.err) && f.writePos > f.readPos)
 //@   loop 1 invariant old(f.err) != nil && old(f.writePos) == old(f.readPos) ==> same(f.err) && same(f.writePos) && same(f.readPos) && extReads == old(extReads)
 //@   loop 1 invariant old(f.writePos) > old(f.readPos) ==> same(f.writePos) && same(f.readPos) && same(f.historyBuffer) && extReads == old(extReads) && same(f.err)
+
+// ---------------------------------------------------------------------------
+// bit input, block headers, stored blocks
+// ---------------------------------------------------------------------------
+
+// remaining compressed bits not yet consumed by the decoder
+//@ pure remBits(s *inflate) int = 8*len(s.input) + int(s.bitsLen)
+// stBase: bit-buffer facts that hold throughout header parsing. A negative bit count (a read past the end,
+// detected afterwards) only occurs once the input is exhausted, so that no refill ever shifts by a negative count.
+//@ pure stBase(s *inflate) bool = -64 <= s.bitsLen && s.bitsLen <= 64 && (s.bitsLen < 0 ==> len(s.input) == 0) && len(s.input) <= 1073741824 && 0 <= s.headerBuffered && s.headerBuffered <= 328
+
+//@ func (*inflate).loadBits
+//@   requires stBase(state)
+//@   modifies state.bits, state.bitsLen, state.input
+//@   ensures[C02 C04 C05 refill] remBits(state) == old(remBits(state))
+//@   ensures[C02 C04 refill-range] stBase(state) && state.bitsLen >= old(state.bitsLen) && (old(state.bitsLen) >= 0 ==> state.bitsLen >= 57 || len(state.input) == 0) && len(state.input) <= old(len(state.input)) && sameobj(state.input, old(state.input)) && (state.input == nil) == (old(state.input) == nil)
+//@   loop 1 invariant -1 <= rangeindex && rangeindex < size && 0 <= size && size <= 8 && size <= len(state.input) && state.bitsLen == old(state.bitsLen) + int32(8*(rangeindex+1)) && same(state.input) && (len(state.input) > 0 ==> 0 <= old(state.bitsLen)) && size == (int(64 - old(state.bitsLen))/8 < len(state.input) ? int(64 - old(state.bitsLen))/8 : len(state.input))
+
+//@ func (*inflate).prepareForLitBlock
+//@   requires stBase(state) && state.bitsLen >= 0
+//@   modifies state.bits, state.bitsLen, state.input, state.litBlockLength, state.phase
+//@   ensures[C03 classify] result == nil || result == errEndInput || result == errInvalidBlock
+//@   ensures[C02 C05 whole-bytes] result == nil ==> state.phase == phaseLitBlock && state.bitsLen % 8 == 0 && 0 <= state.bitsLen && state.bitsLen <= 32 && 0 <= state.litBlockLength && state.litBlockLength <= 65535 && (state.bitsLen == 64 || state.bits >> uint64(state.bitsLen) == 0)
+//@   ensures stBase(state) && len(state.input) <= old(len(state.input)) && sameobj(state.input, old(state.input)) && (state.input == nil) == (old(state.input) == nil)
+//@   ensures result != nil ==> same(state.phase)
+//@   ensures@2[C03 len-check] len != (^nlen & 65535)
+//@   ensures@3[C03 len-check] len == (^nlen & 65535) && state.litBlockLength == int(len)
+
+//@ func (*inflate).setupStaticHeader
+//@   modifies state.litLenTable, state.distTable, state.phase
+//@   ensures[C02 btype] state.phase == phaseHeaderDecoded
+
+//@ func (*inflate).readLitDistLens
+//@   trusted "not yet verified: code length decoding (RFC 1951 3.2.7) into the lit/len and distance length arrays"
+//@   requires[C03 ranges] 0 <= hlit && hlit <= 29 && 0 <= hdist && hdist <= 29 && ctx != nil
+//@   requires stBase(state)
+//@   modifies state.bits, state.bitsLen, state.input, *ctx
+//@   ensures err == nil || err == errEndInput || err == errInvalidBlock
+//@   ensures stBase(state) && len(state.input) <= old(len(state.input)) && sameobj(state.input, old(state.input)) && (state.input == nil) == (old(state.input) == nil)
+
+//@ func (*inflate).codeLenCodes
+//@   trusted "not yet verified: code length code lengths (HCLEN) and their decoding table"
+//@   requires[C03 ranges] 0 <= hclen && hclen <= 15
+//@   requires stBase(state) && state.bitsLen >= 0
+//@   modifies state.bits, state.bitsLen, state.input, state.dynHdr.clcTable
+//@   ensures result == nil || result == errEndInput || result == errInvalidBlock
+//@   ensures stBase(state) && len(state.input) <= old(len(state.input)) && sameobj(state.input, old(state.input)) && (state.input == nil) == (old(state.input) == nil)
+
+//@ func setCodes
+//@   trusted "not yet verified: canonical code assignment with over-subscription check"
+//@   requires len(count) >= 16
+//@   modifies table[*]
+//@   ensures ret == 0 || ret == -1
+
+//@ func (*smallHuffCodeTable).genForDists
+//@   trusted "not yet verified: distance decoding table construction"
+//@   modifies *t, codes[*]
+
+//@ func (*dynamicHeaderReader).setAndExpandLitLenHuffCode
+//@   trusted "not yet verified: lit/len code expansion with over-subscription check"
+//@   modifies *ctx
+//@   ensures result == nil || result == errInvalidBlock
+
+//@ func (*largeHuffCodeTable).genForLitLen
+//@   trusted "not yet verified: multi-symbol lit/len decoding table construction"
+//@   modifies *t, *ctx
+
+//@ func (*inflate).setupDynamicHeader
+//@   requires stBase(state) && state.bitsLen >= 0
+//@   modifies state.bits, state.bitsLen, state.input, state.dynHdr, state.distTable, state.litLenTable, state.phase
+//@   ensures[C03 classify] result == nil || result == errEndInput || result == errInvalidBlock
+//@   ensures[C02 btype] result == nil ==> state.phase == phaseHeaderDecoded && state.bitsLen >= 0
+//@   ensures result != nil ==> same(state.phase)
+//@   ensures stBase(state) && len(state.input) <= old(len(state.input)) && sameobj(state.input, old(state.input)) && (state.input == nil) == (old(state.input) == nil)
+
+//@ func (*inflate).tryDecodeHeader
+//@   requires stBase(state) && state.bitsLen >= 0
+//@   modifies state.bits, state.bitsLen, state.input, state.bfinal, state.litBlockLength, state.phase, state.dynHdr, state.distTable, state.litLenTable
+//@   ensures[C03 classify] err == nil || err == errEndInput || err == errInvalidBlock
+//@   ensures[C02 C03 btype] err == nil ==> (state.phase == phaseLitBlock || state.phase == phaseHeaderDecoded) && state.bitsLen >= 0
+//@   ensures err == nil && state.phase == phaseLitBlock ==> state.bitsLen % 8 == 0 && 0 <= state.bitsLen && state.bitsLen <= 32 && 0 <= state.litBlockLength && state.litBlockLength <= 65535
+//@   ensures err != nil ==> same(state.phase)
+//@   ensures stBase(state) && len(state.input) <= old(len(state.input)) && sameobj(state.input, old(state.input)) && (state.input == nil) == (old(state.input) == nil) && state.bfinal <= 1
+//@   ensures@5[C03 btype] btype == 3
+//@   assumes old(state.phase) == phaseDecodingHeader && old(int(state.headerBuffered)) <= old(len(state.input)) ==> old(len(state.input)) - len(state.input) >= old(int(state.headerBuffered))
+
+//@ func (*inflate).readHeader
+//@   requires stBase(state) && state.bitsLen >= 0 && (state.phase == phaseNewBlock || state.phase == phaseDecodingHeader) && (state.phase == phaseNewBlock ==> state.headerBuffered == 0) && state.input != nil
+//@   modifies state.bits, state.bitsLen, state.input, state.bfinal, state.litBlockLength, state.phase, state.dynHdr, state.distTable, state.litLenTable, state.headerBuffered, state.headerBuffer
+//@   ensures[C03 classify] err == nil || err == errEndInput || err == errInvalidBlock
+//@   ensures[C02 C03 btype] err == nil ==> state.phase == phaseLitBlock || state.phase == phaseHeaderDecoded
+//@   ensures err == nil && state.phase == phaseLitBlock ==> state.bitsLen % 8 == 0 && 0 <= state.bitsLen && state.bitsLen <= 32 && 0 <= state.litBlockLength && state.litBlockLength <= 65535
+//@   ensures[C04 stage] err == errEndInput ==> state.bits == old(state.bits) && state.bitsLen == old(state.bitsLen) && len(state.input) == 0 && state.phase == phaseDecodingHeader && int(state.headerBuffered) == old(int(state.headerBuffered)) + (old(len(state.input)) < 328 - old(int(state.headerBuffered)) ? old(len(state.input)) : 328 - old(int(state.headerBuffered)))
+//@   ensures[C04 stage-reset] err != errEndInput ==> state.headerBuffered == 0
+//@   ensures err == errInvalidBlock ==> same(state.phase)
+//@   ensures (err != errInvalidBlock ==> stBase(state) && state.bitsLen >= 0) && len(state.input) <= old(len(state.input)) && sameobj(state.input, old(state.input)) && state.input != nil && state.bfinal <= 1
+
+//@ func (*inflate).decodeLiteralBlock
+//@   requires stBase(state) && state.phase == phaseLitBlock && state.bitsLen % 8 == 0 && 0 <= state.bitsLen && state.bitsLen <= 64 && 0 <= state.litBlockLength && state.litBlockLength <= 65535 && 0 <= written && written <= len(output) && len(output) <= 1073741824 && state.input != nil
+//@   modifies state.bits, state.bitsLen, state.input, state.litBlockLength, state.phase, output[*]
+//@   ensures[C03 classify] err == nil || err == errEndInput || err == errOutputOverflow
+//@   ensures[C02 stored-copy] written <= w && w <= len(output) && w - written <= old(state.litBlockLength) && state.litBlockLength == old(state.litBlockLength) - (w - written)
+//@   ensures[C02 C03 phase] err == nil ==> state.litBlockLength == 0 && (state.bfinal != 0 ==> state.phase == phaseStreamEnd) && (state.bfinal == 0 ==> state.phase == phaseNewBlock)
+//@   ensures[C03 phase] err != nil ==> state.phase == phaseLitBlock
+//@   ensures[C04 end-input-drained] err == errEndInput ==> len(state.input) == 0 && state.bitsLen == 0
+//@   ensures[C02 C05 accounting] remBits(state) == old(remBits(state)) - 8*(w - written)
+//@   ensures stBase(state) && state.bitsLen % 8 == 0 && 0 <= state.bitsLen && len(state.input) <= old(len(state.input)) && sameobj(state.input, old(state.input)) && state.input != nil
+//@   ensures forall k :: 0 <= k && k < written ==> output[k] == old(output[k])
+//@   loop 1 invariant 0 <= count && count <= length && (state.bitsLen != 0 ==> count < length) && written == old(written) + count && 0 <= length && old(written) + length <= len(output) && length <= old(state.litBlockLength) && state.litBlockLength == old(state.litBlockLength) - length && length <= int(old(state.bitsLen)/8) + len(state.input) && state.bitsLen == old(state.bitsLen) - int32(8*count) && state.bitsLen % 8 == 0 && 0 <= state.bitsLen && state.bitsLen <= 64 && same(state.input) && (err == nil || err == errEndInput || err == errOutputOverflow) && (err == nil ==> length == old(state.litBlockLength) && (state.bfinal != 0 ==> state.phase == phaseStreamEnd) && (state.bfinal == 0 ==> state.phase == phaseNewBlock)) && (err != nil ==> state.phase == phaseLitBlock) && (err == errEndInput ==> length == int(old(state.bitsLen)/8) + len(state.input)) && (forall k :: 0 <= k && k < old(written) ==> output[k] == old(output[k]))
